@@ -87,7 +87,9 @@ class GCWorld(gen.World):
         sd = None
         if subject is not None:
             sd = {"mediaType": MT_OCI_M, "digest": subject, "size": len(self.g[repo].bytes.get(subject, b""))}
-        body = image_manifest(desc(MT_CFG if subject is None else MT_EMPTY, cfg), [desc(MT_LAYER, l) for l in layers],
+        # (layers of foreign / non-distributable media types are stored like any other layer once a manifest lists them)
+        body = image_manifest(desc(MT_CFG if subject is None else MT_EMPTY, cfg),
+                              [desc(MT_LAYER if rng.random() < 0.8 else rng.choice([gen.FOREIGN, "application/vnd.docker.image.rootfs.foreign.diff.tar.gzip"]), l) for l in layers],
                               subject=sd, artifact_type=artifact_type, annotations={"n": str(len(self.steps))})
         return self.push(repo, body, MT_OCI_M, refs, subject=subject, tag=tag, kind="image")
 
@@ -153,6 +155,14 @@ class GCWorld(gen.World):
                 return
             d = rng.choice(cands)
             self.add(blob_delete(repo, d))
+        elif 0.88 <= r < 0.94 and g.man:
+            # a manifest that is already there gets one more tag (several index.json entries of one digest)
+            d = rng.choice(sorted(g.man))
+            if g.man[d].get("subject"):
+                return
+            tag = rng.choice(["t1", "t2", "v1.0"])
+            self.add(manifest_put(repo, tag, g.bytes[d], ctype=g.man[d]["mt"]))
+            g.tags[tag] = d
         elif r < 0.88 and g.bytes:
             # content that is already stored (possibly old by now) is uploaded again through a session: it was uploaded just now
             plain = [x for x in sorted(g.bytes) if x not in g.man]     # (config / layer content, not the bytes of a manifest)
